@@ -73,6 +73,17 @@ class Spec(L.Spec):
                 return super().execute(st, lab)
             finally:
                 del st.h.api
+        if self.client and len(parts) >= 4 and parts[:2] == ["rx", "push"]:
+            # the promised request names another authority than the request it is promised on
+            parent, promised = int(parts[2]), int(parts[3])
+            m = st.h.m
+            s = m.get(parent)
+            info = {"dir": "rx", "kind": "push", "es": False, "sid": parent, "promised": promised, "status": m.status(parent),
+                    "state": s.state if s is not None else "idle", "closed_by": s.closed_by if s is not None else None,
+                    "sent": s.sent if s is not None else "none", "recv": s.recv if s is not None else "none",
+                    "promised_status": m.status(promised)}
+            preq = [(n, (b"pushed.example" if n == b":authority" else v)) for n, v in H.REQ]
+            return st.h.rx([wire.push_promise(parent, promised, L.sb(preq))], ("push", parent, promised)), info
         if len(parts) < 2 or parts[1] != "altsvc":
             return super().execute(st, lab)
         h = st.h
@@ -163,7 +174,7 @@ class Spec(L.Spec):
             if info["with_origin"]:
                 expect = None
             elif info["pushed"] and state == "reserved_remote":
-                expect = "unspecified"
+                expect = b"pushed.example"       # the promised request is this stream's request
             elif state in ("open", "hc_local") and info["recv"] == "none" and info["local_init"]:
                 expect = b"example.com"
             else:
